@@ -86,6 +86,15 @@ def install(c):
     def eye(n, *a, **kw):
         return T(z3.If(diag, z3.RealVal(1), z3.RealVal(0)), "float", None, None, None)
 
+    pad = z3.Bool("element_is_padding")
+
+    def unfold(x, kernel_size, dilation=1, padding=0, stride=1):
+        """F.unfold copies input elements into (C*kh*kw, L) columns; positions that fall into the zero padding are 0:
+        the arbitrary element of the result is an arbitrary input element or a padding zero"""
+        x = flat(x)
+        return T(z3.If(pad, tz.coerce(z3.IntVal(0), x.dtype), x.f), x.dtype, None, None, None)
+
+    it.F_ns._table["unfold"] = unfold
     it.namespaces["einops"] = Namespace("einops", dict(rearrange=rearrange, einsum=einsum))
     it.F_ns._table["linear"] = linear
     tn = it.torch_ns._table
@@ -94,6 +103,7 @@ def install(c):
     tn["zeros"] = zeros
     tn["eye"] = eye
     tn["is_floating_point"] = lambda x: x.dtype == "float"
+    c.layout_symbols = dict(diag=diag, pad=pad)
     return diag
 
 
